@@ -228,6 +228,7 @@ def run_inter(prop, case, consts, rps):
     ks = case.get('ks')
     k = 0
     nlines = 0
+    whole = 0
     while True:
         k += 1
         if ks is not None:
@@ -240,6 +241,7 @@ def run_inter(prop, case, consts, rps):
         if o is None:
             break
         nlines = kk
+        whole += (o['b_ran'] == 'whole')
         key = (o['status'].split(':')[0], str(o['fwd']), o['bad'], str(o['errs']), str(o['snap']), str(o['allfwd']))
         for x in outs:
             if x['key'] == key:
@@ -251,4 +253,4 @@ def run_inter(prop, case, consts, rps):
             break
     for x in outs:
         x['key'] = None
-    return {'inter': outs, 'nlines': nlines, 'consts': consts, 'sb': []}
+    return {'inter': outs, 'nlines': nlines, 'b_whole': whole, 'consts': consts, 'sb': []}
